@@ -1,6 +1,8 @@
 //! rverif: executes scenario families against the real ractor code and records traces.
 //! All policy (what to validate, verdicts) lives in /verif/tools.
+mod cluster2;
 mod explore;
+mod fam_clusterelect;
 mod fam_lifecycle;
 mod fam_mailbox;
 mod tdrv;
@@ -56,6 +58,7 @@ fn main() {
     let fams: &[fn(&str, &HashMap<String, String>) -> Option<serde_json::Value>] = &[
         fam_mailbox::dispatch,
         fam_lifecycle::dispatch,
+        fam_clusterelect::dispatch,
     ];
     for f in fams {
         if let Some(summary) = f(&cmd, &a) {
